@@ -2,11 +2,13 @@ import gfapy
 
 class Other:
 
-  def other_oriented_segment(self, oriented_segment):
+  def other_oriented_segment(self, oriented_segment, tolerant = False):
     """The other oriented segment.
 
     Parameters:
       oriented_segment (gfapy.OrientedLine) : One of the two oriented segments of the line.
+      tolerant (bool) : return None instead of raising an exception, if
+        oriented_segment is not found (default: False)
 
     Returns:
       gfapy.OrientedLine
@@ -18,6 +20,8 @@ class Other:
       return self.sid2
     elif (self.sid2 == oriented_segment):
       return self.sid1
+    elif tolerant:
+      return None
     else:
       raise gfapy.NotFoundError(
           "Oriented segment '{}' not found\n".format(oriented_segment) +
